@@ -122,6 +122,7 @@ func runMutant(m Mutant, repo string) mutantOutcome {
 	}
 	// drop per-program caches
 	factCache = map[*Func]*FactAnalysis{}
+	resetAddrTakenMemo()
 	fieldOwnerCache = nil
 	runtime.GC()
 	return out
